@@ -818,6 +818,25 @@ void make_items(const Options& o, std::vector<Item>& items)
     add(2, {pauser(1), pauser(1), eraser(1), reaper(1)}, 2, 2);
     add(2, {pauser(1), eraser(0), reaper(1), reaper(1)}, 2, 2);
     if (thorough) {
+        // systematic: traverser kind x eraser kind x reaper kind x list size
+        for (int n = 2; n <= 3; n++) {
+            std::vector<TProg> travs = {pauser(n - 1), traverser(false), traverser(true)};
+            std::vector<TProg> erasers;
+            for (int k = 0; k < n; k++) {
+                erasers.push_back(eraser(k));
+                erasers.push_back(eraser(k, true));
+                erasers.push_back(eraser(k, false, 10));
+            }
+            erasers.push_back(erase_all(n));
+            std::vector<std::vector<TProg>> reapers = {{}, {reaper(1)}, {reaper(2)}, {reaper(1), reaper(1)}};
+            for (auto& t : travs)
+                for (auto& e : erasers)
+                    for (auto& r : reapers) {
+                        std::vector<TProg> th = {t, e};
+                        for (auto& x : r) th.push_back(x);
+                        add(n, th, 2, 6);
+                    }
+        }
         add(3, {pauser(2), pauser(1), erase_all(3), reaper(1)}, 2, 2);
         add(3, {pauser(2), eraser(1), reaper(2), reaper(1)}, 2, 2);
         add(2, {traverser(false), traverser(true), erase_all(2), reaper(1)}, 2, 2);
